@@ -1,6 +1,7 @@
 //@ unit dsyms
 //@ props C02
 //@@ verus-args --rlimit 40
+//@@ depends partitions
 //@@ fnprops C04 lemma_done_stable canary_morphism_contract
 //@@ fnprops C01 canary_from_str_contract
 //@@ fnprops C05 canary_cover_contract lemma_fibres lemma_sheet lemma_compose lemma_bop lemma_xor1 lemma_xor1_inj
@@ -2902,6 +2903,599 @@ pub fn oriented_cover<T: DSet>(ds: &T) -> (res: PartialDSym)
         cover(ds, 2, sheet_map)
     }
 }
+//@ end
+
+// ---------------------------------------------------------------------------------------------------------
+// C04: fold / is_minimal (congruence closure over the union-find).
+// Partition<usize> is imported from unit `partitions` (assumed HERE, proved THERE; clause lists compared mechanically).
+// ---------------------------------------------------------------------------------------------------------
+pub open spec fn united_u(r0: spec_fn(usize) -> usize, r1: spec_fn(usize) -> usize, a: usize, b: usize) -> bool {
+    &&& forall|z: usize| #[trigger] r1(z) == (if r0(z) == r0(a) || r0(z) == r0(b) { r1(a) } else { r0(z) })
+    &&& r1(a) == r1(b)
+    &&& (r1(a) == r0(a) || r1(a) == r0(b))
+}
+
+#[verifier::external_body]
+pub struct Partition { _p: usize }
+
+impl Partition {
+    pub uninterp spec fn erep(&self, x: usize) -> usize;
+
+    //@@ import partitions :: impl<T> Partition<T> where T: Clone + Eq + Hash::new
+    #[verifier::external_body]
+    pub fn new() -> (r: Self)
+        ensures forall|x: usize| #[trigger] r.erep(x) == x
+    { unimplemented!() }
+
+    //@@ import partitions :: impl<T> Partition<T> where T: Clone + Eq + Hash::find
+    #[verifier::external_body]
+    pub fn find(&self, x: &usize) -> (r: usize)
+        ensures r == self.erep(*x), self.erep(r) == r
+    { unimplemented!() }
+
+    //@@ import partitions :: impl<T> Partition<T> where T: Clone + Eq + Hash::unite
+    #[verifier::external_body]
+    pub fn unite(&mut self, x: &usize, y: &usize)
+        ensures united_u(|z: usize| old(self).erep(z), |z: usize| final(self).erep(z), *x, *y)
+    { unimplemented!() }
+
+    //@@ import partitions :: impl<T> Clone for Partition<T> where T: Clone::clone
+    #[verifier::external_body]
+    pub fn clone(&self) -> (r: Self)
+        ensures forall|x: usize| #[trigger] r.erep(x) == self.erep(x)
+    { unimplemented!() }
+}
+
+pub assume_specification<T, const N: usize>[<VecDeque<T> as From<[T; N]>>::from](a: [T; N]) -> (r: VecDeque<T>)
+    ensures r@ == a@;
+
+pub open spec fn repf(p: &Partition) -> spec_fn(usize) -> usize { |z: usize| p.erep(z) }
+pub open spec fn same_r(r: spec_fn(usize) -> usize, x: usize, y: usize) -> bool { r(x) == r(y) }
+pub open spec fn rng<S: DSet>(ds: &S, x: usize) -> bool { 1 <= x <= ds.ssize() }
+pub open spec fn img<S: DSet>(ds: &S, i: int, x: usize) -> usize { ds.sop(i, x as int).unwrap() }
+
+// equal degrees m(i, i+1) for all i: what degrees_match tests
+pub open spec fn deg_eq<S: DSet>(ds: &S, x: usize, y: usize) -> bool {
+    forall|i: int| 0 <= i < ds.sdim() ==> #[trigger] ds.sm(i, i + 1, x as int) == ds.sm(i, i + 1, y as int)
+}
+
+pub open spec fn cong_at<S: DSet>(ds: &S, r: spec_fn(usize) -> usize, x: usize, y: usize) -> bool {
+    forall|i: int| 0 <= i <= ds.sdim() ==> r(#[trigger] img(ds, i, x)) == r(img(ds, i, y))
+}
+
+// the equivalence "same r-value" is compatible with every operation ...
+pub open spec fn congruence<S: DSet>(ds: &S, r: spec_fn(usize) -> usize) -> bool {
+    forall|x: usize, y: usize| rng(ds, x) && rng(ds, y) && #[trigger] same_r(r, x, y) ==> cong_at(ds, r, x, y)
+}
+
+// ... and identifies only chambers with equal degrees
+pub open spec fn homogeneous<S: DSet>(ds: &S, r: spec_fn(usize) -> usize) -> bool {
+    forall|x: usize, y: usize| rng(ds, x) && rng(ds, y) && #[trigger] same_r(r, x, y) ==> deg_eq(ds, x, y)
+}
+
+pub open spec fn refines(r0: spec_fn(usize) -> usize, r: spec_fn(usize) -> usize) -> bool {
+    forall|x: usize, y: usize| #[trigger] same_r(r0, x, y) ==> r(x) == r(y)
+}
+
+// a degree-respecting congruence above r0 that identifies d and e
+pub open spec fn good<S: DSet>(ds: &S, q: spec_fn(usize) -> usize, r0: spec_fn(usize) -> usize, d: usize, e: usize) -> bool {
+    congruence(ds, q) && homogeneous(ds, q) && q(d) == q(e) && refines(r0, q)
+}
+
+// connectivity generated over the base equivalence r0 by a history of identified pairs
+pub open spec fn conn_from(r0: spec_fn(usize) -> usize, h: Seq<(usize, usize)>, x: usize, y: usize) -> bool
+    decreases h.len()
+{
+    if h.len() == 0 { r0(x) == r0(y) }
+    else {
+        let p = h.drop_last();
+        let a = h.last().0;
+        let b = h.last().1;
+        conn_from(r0, p, x, y) || (conn_from(r0, p, x, a) && conn_from(r0, p, y, b)) || (conn_from(r0, p, x, b) && conn_from(r0, p, y, a))
+    }
+}
+
+pub open spec fn tracks_from(r0: spec_fn(usize) -> usize, r: spec_fn(usize) -> usize, h: Seq<(usize, usize)>) -> bool {
+    forall|x: usize, y: usize| #[trigger] same_r(r, x, y) <==> conn_from(r0, h, x, y)
+}
+
+proof fn lemma_track_step(r0: spec_fn(usize) -> usize, ra: spec_fn(usize) -> usize, rb: spec_fn(usize) -> usize, h: Seq<(usize, usize)>, a: usize, b: usize)
+    requires tracks_from(r0, ra, h), united_u(ra, rb, a, b)
+    ensures tracks_from(r0, rb, h.push((a, b)))
+{
+    let h2 = h.push((a, b));
+    assert(h2.drop_last() =~= h);
+    assert(h2.last() == (a, b));
+    assert forall|x: usize, y: usize| #[trigger] same_r(rb, x, y) <==> conn_from(r0, h2, x, y) by {
+        assert(same_r(ra, x, y) <==> conn_from(r0, h, x, y));
+        assert(same_r(ra, x, a) <==> conn_from(r0, h, x, a));
+        assert(same_r(ra, y, b) <==> conn_from(r0, h, y, b));
+        assert(same_r(ra, x, b) <==> conn_from(r0, h, x, b));
+        assert(same_r(ra, y, a) <==> conn_from(r0, h, y, a));
+        assert(rb(x) == (if ra(x) == ra(a) || ra(x) == ra(b) { rb(a) } else { ra(x) }));
+        assert(rb(y) == (if ra(y) == ra(a) || ra(y) == ra(b) { rb(a) } else { ra(y) }));
+    }
+}
+
+pub open spec fn links_ok<S: DSet>(ds: &S, rf: spec_fn(usize) -> usize, h: Seq<(usize, usize)>) -> bool {
+    forall|k: int| 0 <= k < h.len() ==> rng(ds, (#[trigger] h[k]).0) && rng(ds, h[k].1) && cong_at(ds, rf, h[k].0, h[k].1) && deg_eq(ds, h[k].0, h[k].1)
+}
+
+proof fn lemma_img_rng<S: DSet>(ds: &S, i: int, x: usize)
+    requires ds.wf(), base_complete(ds), rng(ds, x), 0 <= i <= ds.sdim()
+    ensures rng(ds, img(ds, i, x)), ds.sop(i, x as int) == Some(img(ds, i, x))
+{
+    lemma_bop(ds);
+    assert(1 <= bop(ds, i, x as int) <= ds.ssize());
+}
+
+// x ~ y in the closure  ==>  their images under every operation are identified by rf, provided the images of every generating
+// pair are (induction over the history)
+proof fn lemma_conn_cong<S: DSet>(ds: &S, r0: spec_fn(usize) -> usize, rf: spec_fn(usize) -> usize, h: Seq<(usize, usize)>, x: usize, y: usize)
+    requires ds.wf(), base_complete(ds), congruence(ds, r0), refines(r0, rf), links_ok(ds, rf, h), rng(ds, x), rng(ds, y), conn_from(r0, h, x, y)
+    ensures cong_at(ds, rf, x, y)
+    decreases h.len()
+{
+    if h.len() == 0 {
+        assert(same_r(r0, x, y));
+        assert(cong_at(ds, r0, x, y));
+        assert forall|i: int| 0 <= i <= ds.sdim() implies rf(#[trigger] img(ds, i, x)) == rf(img(ds, i, y)) by {
+            assert(r0(img(ds, i, x)) == r0(img(ds, i, y)));
+            assert(same_r(r0, img(ds, i, x), img(ds, i, y)));
+        }
+    } else {
+        let p = h.drop_last();
+        let a = h.last().0;
+        let b = h.last().1;
+        assert(h[h.len() - 1] == (a, b));
+        assert(rng(ds, a) && rng(ds, b) && cong_at(ds, rf, a, b));
+        assert(links_ok(ds, rf, p)) by { assert forall|k: int| 0 <= k < p.len() implies rng(ds, (#[trigger] p[k]).0) && rng(ds, p[k].1) && cong_at(ds, rf, p[k].0, p[k].1) && deg_eq(ds, p[k].0, p[k].1) by { assert(p[k] == h[k]); } }
+        if conn_from(r0, p, x, y) {
+            lemma_conn_cong(ds, r0, rf, p, x, y);
+        } else if conn_from(r0, p, x, a) && conn_from(r0, p, y, b) {
+            lemma_conn_cong(ds, r0, rf, p, x, a);
+            lemma_conn_cong(ds, r0, rf, p, y, b);
+            assert forall|i: int| 0 <= i <= ds.sdim() implies rf(#[trigger] img(ds, i, x)) == rf(img(ds, i, y)) by {
+                assert(rf(img(ds, i, x)) == rf(img(ds, i, a)));
+                assert(rf(img(ds, i, y)) == rf(img(ds, i, b)));
+                assert(rf(img(ds, i, a)) == rf(img(ds, i, b)));
+            }
+        } else {
+            lemma_conn_cong(ds, r0, rf, p, x, b);
+            lemma_conn_cong(ds, r0, rf, p, y, a);
+            assert forall|i: int| 0 <= i <= ds.sdim() implies rf(#[trigger] img(ds, i, x)) == rf(img(ds, i, y)) by {
+                assert(rf(img(ds, i, x)) == rf(img(ds, i, b)));
+                assert(rf(img(ds, i, y)) == rf(img(ds, i, a)));
+                assert(rf(img(ds, i, a)) == rf(img(ds, i, b)));
+            }
+        }
+    }
+}
+
+proof fn lemma_conn_homog<S: DSet>(ds: &S, r0: spec_fn(usize) -> usize, rf: spec_fn(usize) -> usize, h: Seq<(usize, usize)>, x: usize, y: usize)
+    requires homogeneous(ds, r0), links_ok(ds, rf, h), rng(ds, x), rng(ds, y), conn_from(r0, h, x, y)
+    ensures deg_eq(ds, x, y)
+    decreases h.len()
+{
+    if h.len() == 0 {
+        assert(same_r(r0, x, y));
+    } else {
+        let p = h.drop_last();
+        let a = h.last().0;
+        let b = h.last().1;
+        assert(h[h.len() - 1] == (a, b));
+        assert(rng(ds, a) && rng(ds, b) && deg_eq(ds, a, b));
+        assert(links_ok(ds, rf, p)) by { assert forall|k: int| 0 <= k < p.len() implies rng(ds, (#[trigger] p[k]).0) && rng(ds, p[k].1) && cong_at(ds, rf, p[k].0, p[k].1) && deg_eq(ds, p[k].0, p[k].1) by { assert(p[k] == h[k]); } }
+        if conn_from(r0, p, x, y) {
+            lemma_conn_homog(ds, r0, rf, p, x, y);
+        } else if conn_from(r0, p, x, a) && conn_from(r0, p, y, b) {
+            lemma_conn_homog(ds, r0, rf, p, x, a);
+            lemma_conn_homog(ds, r0, rf, p, y, b);
+            assert forall|i: int| 0 <= i < ds.sdim() implies #[trigger] ds.sm(i, i + 1, x as int) == ds.sm(i, i + 1, y as int) by {
+                assert(ds.sm(i, i + 1, x as int) == ds.sm(i, i + 1, a as int));
+                assert(ds.sm(i, i + 1, y as int) == ds.sm(i, i + 1, b as int));
+                assert(ds.sm(i, i + 1, a as int) == ds.sm(i, i + 1, b as int));
+            }
+        } else {
+            lemma_conn_homog(ds, r0, rf, p, x, b);
+            lemma_conn_homog(ds, r0, rf, p, y, a);
+            assert forall|i: int| 0 <= i < ds.sdim() implies #[trigger] ds.sm(i, i + 1, x as int) == ds.sm(i, i + 1, y as int) by {
+                assert(ds.sm(i, i + 1, x as int) == ds.sm(i, i + 1, b as int));
+                assert(ds.sm(i, i + 1, y as int) == ds.sm(i, i + 1, a as int));
+                assert(ds.sm(i, i + 1, a as int) == ds.sm(i, i + 1, b as int));
+            }
+        }
+    }
+}
+
+pub open spec fn in_q(q: Seq<(usize, usize)>, x: usize, y: usize) -> bool {
+    exists|k: int| 0 <= k < q.len() && #[trigger] q[k] == (x, y)
+}
+
+// every listed pair consists of chambers with matching degrees
+pub open spec fn pairs_ok<S: DSet>(ds: &S, s: Seq<(usize, usize)>) -> bool {
+    forall|k: int| 0 <= k < s.len() ==> rng(ds, (#[trigger] s[k]).0) && rng(ds, s[k].1) && deg_eq(ds, s[k].0, s[k].1)
+}
+
+pub open spec fn q_ident(q: spec_fn(usize) -> usize, s: Seq<(usize, usize)>) -> bool {
+    forall|k: int| 0 <= k < s.len() ==> q((#[trigger] s[k]).0) == q(s[k].1)
+}
+
+// the i-images of the pair (x, y) are already identified, or waiting in the queue
+pub open spec fn coq<S: DSet>(ds: &S, rf: spec_fn(usize) -> usize, queue: Seq<(usize, usize)>, x: usize, y: usize, i: int) -> bool {
+    same_r(rf, img(ds, i, x), img(ds, i, y)) || in_q(queue, img(ds, i, x), img(ds, i, y))
+}
+
+// ... for every pair of the history (for the last one only for the operations below `upto`); `extra` is the pair just taken from the queue
+pub open spec fn closed_or_queued<S: DSet>(ds: &S, rf: spec_fn(usize) -> usize, queue: Seq<(usize, usize)>, h: Seq<(usize, usize)>, upto: int, extra: Option<(usize, usize)>) -> bool {
+    forall|k: int, j: int| 0 <= k < h.len() && 0 <= j <= ds.sdim() && (k < h.len() - 1 || j < upto) ==>
+        #[trigger] coq(ds, rf, queue, h[k].0, h[k].1, j) || extra == Some((img(ds, j, h[k].0), img(ds, j, h[k].1)))
+}
+
+// every degree-respecting congruence above r0 that identifies d0 and e0 also identifies every pair seen so far (completeness)
+pub open spec fn complete_inv<S: DSet>(ds: &S, r0: spec_fn(usize) -> usize, d0: usize, e0: usize, h: Seq<(usize, usize)>, queue: Seq<(usize, usize)>) -> bool {
+    forall|q: spec_fn(usize) -> usize| #[trigger] good(ds, q, r0, d0, e0) ==> q_ident(q, h) && q_ident(q, queue)
+}
+
+pub open spec fn is_tail(qb: Seq<(usize, usize)>, qa: Seq<(usize, usize)>) -> bool {
+    qb.len() > 0 && qa.len() == qb.len() - 1 && forall|t: int| 0 <= t < qa.len() ==> #[trigger] qa[t] == qb[t + 1]
+}
+
+proof fn lemma_conn_base(r0: spec_fn(usize) -> usize, h: Seq<(usize, usize)>, x: usize, y: usize)
+    requires r0(x) == r0(y)
+    ensures conn_from(r0, h, x, y)
+    decreases h.len()
+{
+    if h.len() > 0 { lemma_conn_base(r0, h.drop_last(), x, y); }
+}
+
+proof fn lemma_pop<S: DSet>(ds: &S, rf: spec_fn(usize) -> usize, qb: Seq<(usize, usize)>, qa: Seq<(usize, usize)>, h: Seq<(usize, usize)>, d: usize, e: usize)
+    requires is_tail(qb, qa), qb[0] == (d, e), closed_or_queued(ds, rf, qb, h, ds.sdim() + 1, None)
+    ensures closed_or_queued(ds, rf, qa, h, ds.sdim() + 1, Some((d, e)))
+{
+    assert forall|k: int, j: int| 0 <= k < h.len() && 0 <= j <= ds.sdim() implies
+        #[trigger] coq(ds, rf, qa, h[k].0, h[k].1, j) || Some((d, e)) == Some((img(ds, j, h[k].0), img(ds, j, h[k].1))) by {
+        let x = img(ds, j, h[k].0);
+        let y = img(ds, j, h[k].1);
+        assert(coq(ds, rf, qb, h[k].0, h[k].1, j));
+        if !same_r(rf, x, y) {
+            let t = choose|t: int| 0 <= t < qb.len() && #[trigger] qb[t] == (x, y);
+            if t > 0 { assert(qa[t - 1] == qb[t]); assert(in_q(qa, x, y)); }
+        }
+    }
+}
+
+// the popped pair was already identified: nothing changes
+proof fn lemma_skip<S: DSet>(ds: &S, rf: spec_fn(usize) -> usize, qa: Seq<(usize, usize)>, h: Seq<(usize, usize)>, d: usize, e: usize)
+    requires closed_or_queued(ds, rf, qa, h, ds.sdim() + 1, Some((d, e))), rf(d) == rf(e)
+    ensures closed_or_queued(ds, rf, qa, h, ds.sdim() + 1, None)
+{
+    assert forall|k: int, j: int| 0 <= k < h.len() && 0 <= j <= ds.sdim() implies #[trigger] coq(ds, rf, qa, h[k].0, h[k].1, j) by {
+        assert(coq(ds, rf, qa, h[k].0, h[k].1, j) || Some((d, e)) == Some((img(ds, j, h[k].0), img(ds, j, h[k].1))));
+    }
+}
+
+// the popped pair is united and appended to the history
+proof fn lemma_unite_step<S: DSet>(ds: &S, ra: spec_fn(usize) -> usize, rb: spec_fn(usize) -> usize, qa: Seq<(usize, usize)>, h: Seq<(usize, usize)>, d: usize, e: usize)
+    requires closed_or_queued(ds, ra, qa, h, ds.sdim() + 1, Some((d, e))), united_u(ra, rb, d, e)
+    ensures closed_or_queued(ds, rb, qa, h.push((d, e)), 0, None)
+{
+    let h2 = h.push((d, e));
+    assert forall|k: int, j: int| 0 <= k < h2.len() - 1 && 0 <= j <= ds.sdim() implies #[trigger] coq(ds, rb, qa, h2[k].0, h2[k].1, j) by {
+        assert(h2[k] == h[k]);
+        let x = img(ds, j, h[k].0);
+        let y = img(ds, j, h[k].1);
+        assert(coq(ds, ra, qa, h[k].0, h[k].1, j) || Some((d, e)) == Some((x, y)));
+        assert(rb(x) == (if ra(x) == ra(d) || ra(x) == ra(e) { rb(d) } else { ra(x) }));
+        assert(rb(y) == (if ra(y) == ra(d) || ra(y) == ra(e) { rb(d) } else { ra(y) }));
+        assert(rb(d) == (if ra(d) == ra(d) || ra(d) == ra(e) { rb(d) } else { ra(d) }));
+        assert(rb(e) == (if ra(e) == ra(d) || ra(e) == ra(e) { rb(d) } else { ra(e) }));
+    }
+}
+
+proof fn lemma_queue_push<S: DSet>(ds: &S, rf: spec_fn(usize) -> usize, qi: Seq<(usize, usize)>, h: Seq<(usize, usize)>, i: int, d: usize, e: usize)
+    requires h.len() > 0, h.last() == (d, e), 0 <= i <= ds.sdim(), closed_or_queued(ds, rf, qi, h, i, None)
+    ensures closed_or_queued(ds, rf, qi.push((img(ds, i, d), img(ds, i, e))), h, i + 1, None)
+{
+    let qn = qi.push((img(ds, i, d), img(ds, i, e)));
+    assert forall|k: int, j: int| 0 <= k < h.len() && 0 <= j <= ds.sdim() && (k < h.len() - 1 || j < i + 1) implies #[trigger] coq(ds, rf, qn, h[k].0, h[k].1, j) by {
+        let x = img(ds, j, h[k].0);
+        let y = img(ds, j, h[k].1);
+        if k == h.len() - 1 && j == i {
+            assert(qn[qi.len() as int] == (x, y));
+            assert(in_q(qn, x, y));
+        } else {
+            assert(coq(ds, rf, qi, h[k].0, h[k].1, j));
+            if !same_r(rf, x, y) {
+                let t = choose|t: int| 0 <= t < qi.len() && #[trigger] qi[t] == (x, y);
+                assert(qn[t] == (x, y));
+                assert(in_q(qn, x, y));
+            }
+        }
+    }
+}
+
+proof fn lemma_ci_pop<S: DSet>(ds: &S, r0: spec_fn(usize) -> usize, d0: usize, e0: usize, h: Seq<(usize, usize)>, qb: Seq<(usize, usize)>, qa: Seq<(usize, usize)>, d: usize, e: usize)
+    requires is_tail(qb, qa), qb[0] == (d, e), complete_inv(ds, r0, d0, e0, h, qb)
+    ensures complete_inv(ds, r0, d0, e0, h, qa), complete_inv(ds, r0, d0, e0, h.push((d, e)), qa)
+{
+    let h2 = h.push((d, e));
+    assert forall|q: spec_fn(usize) -> usize| #[trigger] good(ds, q, r0, d0, e0) implies q_ident(q, h) && q_ident(q, qa) && q_ident(q, h2) by {
+        assert(q_ident(q, qb));
+        assert(q(qb[0].0) == q(qb[0].1));
+        assert forall|k: int| 0 <= k < qa.len() implies q((#[trigger] qa[k]).0) == q(qa[k].1) by { assert(qa[k] == qb[k + 1]); }
+        assert forall|k: int| 0 <= k < h2.len() implies q((#[trigger] h2[k]).0) == q(h2[k].1) by { if k < h.len() { assert(h2[k] == h[k]); } }
+    }
+}
+
+// a degree-respecting congruence that identifies (d, e) identifies their images, which therefore have equal degrees
+proof fn lemma_good_images<S: DSet>(ds: &S, r0: spec_fn(usize) -> usize, d0: usize, e0: usize, q: spec_fn(usize) -> usize, d: usize, e: usize, i: int)
+    requires ds.wf(), base_complete(ds), good(ds, q, r0, d0, e0), q(d) == q(e), rng(ds, d), rng(ds, e), 0 <= i <= ds.sdim()
+    ensures q(img(ds, i, d)) == q(img(ds, i, e)), deg_eq(ds, img(ds, i, d), img(ds, i, e))
+{
+    assert(same_r(q, d, e));
+    assert(cong_at(ds, q, d, e));
+    lemma_img_rng(ds, i, d);
+    lemma_img_rng(ds, i, e);
+    assert(same_r(q, img(ds, i, d), img(ds, i, e)));
+}
+
+proof fn lemma_ci_push<S: DSet>(ds: &S, r0: spec_fn(usize) -> usize, d0: usize, e0: usize, h: Seq<(usize, usize)>, qi: Seq<(usize, usize)>, d: usize, e: usize, i: int)
+    requires ds.wf(), base_complete(ds), h.len() > 0, h.last() == (d, e), rng(ds, d), rng(ds, e), 0 <= i <= ds.sdim(), complete_inv(ds, r0, d0, e0, h, qi)
+    ensures complete_inv(ds, r0, d0, e0, h, qi.push((img(ds, i, d), img(ds, i, e))))
+{
+    let qn = qi.push((img(ds, i, d), img(ds, i, e)));
+    assert forall|q: spec_fn(usize) -> usize| #[trigger] good(ds, q, r0, d0, e0) implies q_ident(q, qn) by {
+        assert(q_ident(q, h));
+        assert(q(h[h.len() - 1].0) == q(h[h.len() - 1].1));
+        lemma_good_images(ds, r0, d0, e0, q, d, e, i);
+        assert forall|k: int| 0 <= k < qn.len() implies q((#[trigger] qn[k]).0) == q(qn[k].1) by { if k < qi.len() { assert(qn[k] == qi[k]); } }
+    }
+}
+
+// images with different degrees: no degree-respecting congruence can identify d0 and e0
+proof fn lemma_ci_none<S: DSet>(ds: &S, r0: spec_fn(usize) -> usize, d0: usize, e0: usize, h: Seq<(usize, usize)>, qi: Seq<(usize, usize)>, d: usize, e: usize, i: int)
+    requires ds.wf(), base_complete(ds), h.len() > 0, h.last() == (d, e), rng(ds, d), rng(ds, e), 0 <= i <= ds.sdim(), complete_inv(ds, r0, d0, e0, h, qi),
+        !deg_eq(ds, img(ds, i, d), img(ds, i, e))
+    ensures forall|q: spec_fn(usize) -> usize| !#[trigger] good(ds, q, r0, d0, e0)
+{
+    assert forall|q: spec_fn(usize) -> usize| !#[trigger] good(ds, q, r0, d0, e0) by {
+        if good(ds, q, r0, d0, e0) {
+            assert(q_ident(q, h));
+            assert(q(h[h.len() - 1].0) == q(h[h.len() - 1].1));
+            lemma_good_images(ds, r0, d0, e0, q, d, e, i);
+        }
+    }
+}
+
+// when the queue has run empty, the partition is a degree-respecting congruence
+proof fn lemma_fold_result<S: DSet>(ds: &S, r0: spec_fn(usize) -> usize, rf: spec_fn(usize) -> usize, h: Seq<(usize, usize)>, d0: usize, e0: usize)
+    requires ds.wf(), base_complete(ds), congruence(ds, r0), homogeneous(ds, r0), tracks_from(r0, rf, h), pairs_ok(ds, h),
+        closed_or_queued(ds, rf, Seq::<(usize, usize)>::empty(), h, ds.sdim() + 1, None), conn_from(r0, h, d0, e0)
+    ensures good(ds, rf, r0, d0, e0)
+{
+    let emp = Seq::<(usize, usize)>::empty();
+    assert forall|x: usize, y: usize| #[trigger] same_r(r0, x, y) implies rf(x) == rf(y) by {
+        lemma_conn_base(r0, h, x, y);
+        assert(same_r(rf, x, y) <==> conn_from(r0, h, x, y));
+    }
+    assert(refines(r0, rf));
+    assert forall|k: int| 0 <= k < h.len() implies rng(ds, (#[trigger] h[k]).0) && rng(ds, h[k].1) && cong_at(ds, rf, h[k].0, h[k].1) && deg_eq(ds, h[k].0, h[k].1) by {
+        assert forall|j: int| 0 <= j <= ds.sdim() implies rf(#[trigger] img(ds, j, h[k].0)) == rf(img(ds, j, h[k].1)) by {
+            assert(coq(ds, rf, emp, h[k].0, h[k].1, j));
+        }
+    }
+    assert(links_ok(ds, rf, h));
+    assert forall|x: usize, y: usize| rng(ds, x) && rng(ds, y) && #[trigger] same_r(rf, x, y) implies cong_at(ds, rf, x, y) && deg_eq(ds, x, y) by {
+        assert(same_r(rf, x, y) <==> conn_from(r0, h, x, y));
+        lemma_conn_cong(ds, r0, rf, h, x, y);
+        lemma_conn_homog(ds, r0, rf, h, x, y);
+    }
+    assert(same_r(rf, d0, e0) <==> conn_from(r0, h, d0, e0));
+}
+
+pub open spec fn id_r() -> spec_fn(usize) -> usize { |z: usize| z }
+
+// C04: some degree-respecting congruence identifies chamber 1 with chamber d (the symbol has a quotient merging the two)
+pub open spec fn foldable<S: DSet>(ds: &S, d: usize) -> bool {
+    exists|q: spec_fn(usize) -> usize| #[trigger] good(ds, q, id_r(), 1, d)
+}
+
+//@ begin src/dsets.rs :: trait DSet: Sized :: fn fold | props=C04
+//@ rw R4 /Partition<usize>/Partition/
+//@ rw R11 /fn fold\(&self, p0: &Partition, d: usize, e: usize\)/pub fn fold<S: DSet>(this: &S, p0: &Partition, d: usize, e: usize)/
+//@ rw R11 /\bself\b/this/
+//@ rw R16 /-> Option<Partition>/-> (res: Option<Partition>)/
+//@ rw R10 /for i in 0\.\.=this\.dim\(\)$/for i in 0..(this.dim()) + 1/
+#[verifier::spinoff_prover]
+#[verifier::loop_isolation(false)]
+#[verifier::allow_complex_invariants]
+#[verifier::exec_allows_no_decreases_clause]
+    pub fn fold<S: DSet>(this: &S, p0: &Partition, d: usize, e: usize)
+        -> (res: Option<Partition>)
+    requires this.wf(), base_complete(this), rng(this, d), rng(this, e),
+        // p0 is itself a degree-respecting congruence (is_minimal starts from the identity, minimal_image from earlier results)
+        congruence(this, repf(p0)), homogeneous(this, repf(p0)),
+    ensures
+        // Some(p): p is a degree-respecting congruence above p0 that identifies d and e
+        res.is_some() ==> good(this, repf(&res.unwrap()), repf(p0), d, e),
+        // None: no such congruence exists at all
+        res.is_none() ==> forall|q: spec_fn(usize) -> usize| !#[trigger] good(this, q, repf(p0), d, e),
+    {
+        proof { this.lemma_wf(); lemma_bop(this); }
+        let ghost r0 = repf(p0);
+        let ghost d0 = d;
+        let ghost e0 = e;
+        if d == 0 || e == 0 || !this.degrees_match(d, e) {
+            proof {
+                assert forall|q: spec_fn(usize) -> usize| !#[trigger] good(this, q, r0, d0, e0) by {
+                    if good(this, q, r0, d0, e0) { assert(same_r(q, d0, e0)); }
+                }
+            }
+            None
+        } else {
+            let mut queue = VecDeque::from([(d, e)]);
+            let mut p = p0.clone();
+            let ghost mut h: Seq<(usize, usize)> = Seq::empty();
+            let ghost mut qg: Seq<(usize, usize)> = queue@;
+            proof {
+                assert(queue@[0] == (d0, e0));
+                assert(in_q(queue@, d0, e0));
+                assert(tracks_from(r0, repf(&p), h));
+                assert(complete_inv(this, r0, d0, e0, h, queue@)) by {
+                    assert forall|q: spec_fn(usize) -> usize| #[trigger] good(this, q, r0, d0, e0) implies q_ident(q, h) && q_ident(q, queue@) by { }
+                }
+            }
+
+            while let Some((d, e)) = queue.pop_front()
+                invariant
+                    this.wf(), base_complete(this), rng(this, d0), rng(this, e0),
+                    r0 == repf(p0), congruence(this, r0), homogeneous(this, r0),
+                    tracks_from(r0, repf(&p), h),
+                    pairs_ok(this, h), pairs_ok(this, queue@),
+                    closed_or_queued(this, repf(&p), queue@, h, this.sdim() + 1, None),
+                    complete_inv(this, r0, d0, e0, h, queue@),
+                    conn_from(r0, h, d0, e0) || in_q(queue@, d0, e0),
+                    qg == queue@,
+                ensures
+                    queue@.len() == 0,
+            {
+                proof {
+                    this.lemma_wf(); lemma_bop(this);
+                    assert(qg[0] == (d, e));
+                    assert(is_tail(qg, queue@));
+                    lemma_pop(this, repf(&p), qg, queue@, h, d, e);
+                    lemma_ci_pop(this, r0, d0, e0, h, qg, queue@, d, e);
+                    assert(pairs_ok(this, queue@)) by { assert forall|k: int| 0 <= k < queue@.len() implies rng(this, (#[trigger] queue@[k]).0) && rng(this, queue@[k].1) && deg_eq(this, queue@[k].0, queue@[k].1) by { assert(queue@[k] == qg[k + 1]); } }
+                    assert(conn_from(r0, h, d0, e0) || in_q(queue@, d0, e0) || (d0, e0) == (d, e)) by {
+                        if !conn_from(r0, h, d0, e0) {
+                            let t = choose|t: int| 0 <= t < qg.len() && #[trigger] qg[t] == (d0, e0);
+                            if t > 0 { assert(queue@[t - 1] == qg[t]); }
+                        }
+                    }
+                }
+                proof {
+                    // the pair is already identified: the `if` below is skipped and nothing changes
+                    if repf(&p)(d) == repf(&p)(e) {
+                        lemma_skip(this, repf(&p), queue@, h, d, e);
+                        if (d0, e0) == (d, e) { assert(same_r(repf(&p), d, e) <==> conn_from(r0, h, d, e)); }
+                    }
+                }
+                if p.find(&d) != p.find(&e) {
+                    let ghost ra = repf(&p);
+                    let ghost hb = h;
+                    p.unite(&d, &e);
+                    proof {
+                        h = hb.push((d, e));
+                        assert(united_u(ra, repf(&p), d, e));
+                        lemma_track_step(r0, ra, repf(&p), hb, d, e);
+                        lemma_unite_step(this, ra, repf(&p), queue@, hb, d, e);
+                        assert(h.drop_last() =~= hb);
+                        assert(pairs_ok(this, h)) by { assert forall|k: int| 0 <= k < h.len() implies rng(this, (#[trigger] h[k]).0) && rng(this, h[k].1) && deg_eq(this, h[k].0, h[k].1) by { if k < hb.len() { assert(h[k] == hb[k]); } } }
+                        assert(conn_from(r0, h, d0, e0) || in_q(queue@, d0, e0)) by {
+                            if (d0, e0) == (d, e) { lemma_conn_base(r0, hb, d, d); lemma_conn_base(r0, hb, e, e); }
+                        }
+                    }
+
+                    for i in 0..(this.dim()) + 1
+                        invariant
+                            this.wf(), base_complete(this), rng(this, d0), rng(this, e0), rng(this, d), rng(this, e),
+                            r0 == repf(p0), congruence(this, r0), homogeneous(this, r0),
+                            h.len() > 0, h.last() == (d, e),
+                            tracks_from(r0, repf(&p), h),
+                            pairs_ok(this, h), pairs_ok(this, queue@),
+                            closed_or_queued(this, repf(&p), queue@, h, i as int, None),
+                            complete_inv(this, r0, d0, e0, h, queue@),
+                            conn_from(r0, h, d0, e0) || in_q(queue@, d0, e0),
+                    {
+                        proof { this.lemma_wf(); lemma_bop(this); lemma_img_rng(this, i as int, d); lemma_img_rng(this, i as int, e); }
+                        let ghost qi = queue@;
+                        if let Some(di) = this.op(i, d) {
+                            if let Some(ei) = this.op(i, e) {
+                                if this.degrees_match(di, ei) {
+                                    queue.push_back((di, ei));
+                                    proof {
+                                        assert(queue@ =~= qi.push((di, ei)));
+                                        lemma_queue_push(this, repf(&p), qi, h, i as int, d, e);
+                                        lemma_ci_push(this, r0, d0, e0, h, qi, d, e, i as int);
+                                        assert(pairs_ok(this, queue@)) by { assert forall|k: int| 0 <= k < queue@.len() implies rng(this, (#[trigger] queue@[k]).0) && rng(this, queue@[k].1) && deg_eq(this, queue@[k].0, queue@[k].1) by { if k < qi.len() { assert(queue@[k] == qi[k]); } } }
+                                        if in_q(qi, d0, e0) {
+                                            let t = choose|t: int| 0 <= t < qi.len() && #[trigger] qi[t] == (d0, e0);
+                                            assert(queue@[t] == (d0, e0));
+                                        }
+                                    }
+                                } else {
+                                    proof { lemma_ci_none(this, r0, d0, e0, h, qi, d, e, i as int); }
+                                    return None;
+                                }
+                            }
+                        }
+                    }
+                }
+                proof { qg = queue@; }
+            }
+
+            proof {
+                assert(queue@ =~= Seq::<(usize, usize)>::empty());
+                lemma_fold_result(this, r0, repf(&p), h, d0, e0);
+            }
+            Some(p)
+        }
+    }
+//@ end
+
+//@ begin src/dsets.rs :: trait DSet: Sized :: fn is_minimal | props=C04
+//@ rw R11 /fn is_minimal\(&self\)/pub fn is_minimal<S: DSet>(this: &S)/
+//@ rw R11 /\bself\b/this/
+//@ rw R11 /this\.fold\(/fold(this, /
+//@ rw R16 /-> bool/-> (b: bool)/
+//@ rw R10 /\(2\.\.=this\.size\(\)\)/(2..(this.size()) + 1)/
+//@ rw R14 /^([ \t]*)(\(2\.\.\(this\.size\(\)\) \+ 1\)\.all\()\|d\| (.*)\.is_none\(\)\)$/\1let __b = \2|d: usize| -> (c: bool)\n\1{\n\1    let __f = \3;\n\1    __f.is_none()\n\1});\n\1__b/
+#[verifier::spinoff_prover]
+    pub fn is_minimal<S: DSet>(this: &S) -> (b: bool)
+    requires this.wf(), base_complete(this)
+    // true exactly when no chamber other than 1 itself can be merged with chamber 1 by a degree-respecting congruence
+    ensures b == (forall|d: usize| 2 <= d <= this.ssize() ==> !#[trigger] foldable(this, d))
+    {
+        proof { this.lemma_wf(); lemma_bop(this); }
+        let p = Partition::new();
+        proof {
+            assert forall|x: usize, y: usize| rng(this, x) && rng(this, y) && #[trigger] same_r(repf(&p), x, y) implies cong_at(this, repf(&p), x, y) && deg_eq(this, x, y) by { }
+        }
+        let __b = (2..(this.size()) + 1).all(|d: usize| -> (c: bool)
+            requires 2 <= d <= this.ssize(), this.wf(), base_complete(this), congruence(this, repf(&p)), homogeneous(this, repf(&p)),
+                forall|z: usize| #[trigger] p.erep(z) == z
+            ensures c == !foldable(this, d)
+        {
+            let __f = fold(this, &p, 1, d);
+            proof {
+                assert forall|q: spec_fn(usize) -> usize| #[trigger] good(this, q, repf(&p), 1, d) <==> good(this, q, id_r(), 1, d) by {
+                    assert(refines(repf(&p), q));
+                    assert(refines(id_r(), q));
+                }
+                if __f.is_some() {
+                    assert(good(this, repf(&__f.unwrap()), repf(&p), 1, d));
+                    assert(good(this, repf(&__f.unwrap()), id_r(), 1, d));
+                    assert(foldable(this, d));
+                } else {
+                    assert forall|q: spec_fn(usize) -> usize| !#[trigger] good(this, q, id_r(), 1, d) by {
+                        assert(!good(this, q, repf(&p), 1, d));
+                    }
+                    assert(!foldable(this, d));
+                }
+            }
+            __f.is_none()
+        });
+        proof {
+            if __b {
+                assert forall|d: usize| 2 <= d <= this.ssize() implies !#[trigger] foldable(this, d) by {
+                    let rg = 2..((this.ssize() + 1) as usize);
+                    assert(IteratorSpec::remaining(&rg)[d - 2] == d);
+                }
+            }
+        }
+        __b
+    }
 //@ end
 
 // =====================================================================================================
